@@ -105,6 +105,21 @@ func (s *State) appendOp(site ssa.Instruction, a, b Val) Val {
 		goal := implies(and(fits, app(">", n, "0")), c.frameGoal(s, "elems", "elem|"+typeKey(et), a.Sl.Base))
 		s.oblige("frame", site, c.ordinal(site, "frame"), goal, "append writes spare capacity outside the assigns clause", false)
 	}
+	if c.cellsMode {
+		s.declCells()
+		switch {
+		case kindOf(et) == kStr:
+			s.oblige("cells-immutable", site, c.ordinal(site, "cells-immutable"), implies(fits, not(app("isCellRef", a.Sl.Base))), "append in place into a match of ansi.expand (the cell model treats it as immutable)", false)
+		case kindOf(et) == kSlice && kindOf(et.Underlying().(*types.Slice).Elem()) == kStr:
+			s.oblige("cells-immutable", site, c.ordinal(site, "cells-immutable"), implies(and(fits, app(">", n, "0")), not(app("isCells", a.Sl.Base))), "append in place into the match list of ansi.expand (the cell model treats it as immutable)", false)
+		}
+	}
+	var oldInner, appended string
+	sums := (c.useLines || c.cellsMode) && kindOf(et) == kStr && n == "1"
+	if sums {
+		oldInner = s.define("oldelems", arrSort(sInt, sStr), s.strElems(a.Sl.Base))
+		appended = sel(s.strElems(b.Sl.Base), b.Sl.Off)
+	}
 	s.appendElems(et, nil, a, b, fits, nb, n)
 	res := Val{T: a.T, Sl: &SliceV{
 		Base: s.define("ab", sInt, ite(fits, a.Sl.Base, nb)),
@@ -112,6 +127,15 @@ func (s *State) appendOp(site ssa.Instruction, a, b Val) Val {
 		Len:  newLen,
 		Cap:  s.define("ac", sInt, ite(fits, a.Sl.Cap, newCap)),
 	}}
+	if sums {
+		// the elements of the result are those of a followed by the appended one: element sums grow by its measure
+		s.declSums()
+		newInner := s.strElems(res.Sl.Base)
+		for _, f := range []string{"vlen", "nsc"} {
+			s.assume(eq(app("ssum_"+f, newInner, res.Sl.Off, app("+", res.Sl.Off, newLen)),
+				app("+", app("ssum_"+f, oldInner, a.Sl.Off, app("+", a.Sl.Off, a.Sl.Len)), app(f, appended))))
+		}
+	}
 	// appending nothing to a nil slice yields nil
 	if n != "1" {
 		res.Sl.Base = s.define("ab", sInt, ite(and(eq(a.Sl.Base, "0"), eq(n, "0")), "0", res.Sl.Base))
@@ -143,8 +167,8 @@ func (s *State) appendElems(et types.Type, path []int, a, b Val, fits, nb, n str
 			fr := c.freshConst("apf", inner)
 			j := fmt.Sprintf("j!%d", c.fresh)
 			c.fresh++
-			s.assume(fmt.Sprintf("(forall ((%s Int)) (! (=> (and (<= 0 %s) (< %s %s)) (= (select %s %s) (select %s (+ %s %s)))) :pattern ((select %s %s))))",
-				j, j, j, a.Sl.Len, fr, j, oldA, a.Sl.Off, j, fr, j))
+			s.assume(fmt.Sprintf("(forall ((%s Int)) (! (=> (and (<= 0 %s) (< %s %s)) (= (select %s %s) (select %s %s))) :pattern ((select %s %s))))",
+				j, j, j, a.Sl.Len, fr, j, oldA, ixT(a.Sl.Off, j), fr, j))
 			fresh = sto(fr, a.Sl.Len, x)
 		} else {
 			ip := c.freshConst("api", inner)
@@ -152,13 +176,13 @@ func (s *State) appendElems(et types.Type, path []int, a, b Val, fits, nb, n str
 			c.fresh++
 			lo := app("+", a.Sl.Off, a.Sl.Len)
 			// in place: cells outside [lo, lo+n) keep their value, cell k in that window holds b[k-lo]
-			s.assume(fmt.Sprintf("(forall ((%s Int)) (! (= (select %s %s) (ite (and (<= %s %s) (< %s (+ %s %s))) (select %s (+ %s (- %s %s))) (select %s %s))) :pattern ((select %s %s))))",
-				j, ip, j, lo, j, j, lo, n, srcB, b.Sl.Off, j, lo, oldA, j, ip, j))
+			s.assume(fmt.Sprintf("(forall ((%s Int)) (! (= (select %s %s) (ite (and (<= %s %s) (< %s (+ %s %s))) (select %s %s) (select %s %s))) :pattern ((select %s %s))))",
+				j, ip, j, lo, j, j, lo, n, srcB, ixT(b.Sl.Off, app("-", j, lo)), oldA, j, ip, j))
 			inPlace = ip
 			fr := c.freshConst("apf", inner)
 			// reallocated: cell k < len(a) holds a[k], cell len(a) <= k < len(a)+n holds b[k-len(a)]
-			s.assume(fmt.Sprintf("(forall ((%s Int)) (! (=> (and (<= 0 %s) (< %s (+ %s %s))) (= (select %s %s) (ite (< %s %s) (select %s (+ %s %s)) (select %s (+ %s (- %s %s)))))) :pattern ((select %s %s))))",
-				j, j, j, a.Sl.Len, n, fr, j, j, a.Sl.Len, oldA, a.Sl.Off, j, srcB, b.Sl.Off, j, a.Sl.Len, fr, j))
+			s.assume(fmt.Sprintf("(forall ((%s Int)) (! (=> (and (<= 0 %s) (< %s (+ %s %s))) (= (select %s %s) (ite (< %s %s) (select %s %s) (select %s %s)))) :pattern ((select %s %s))))",
+				j, j, j, a.Sl.Len, n, fr, j, j, a.Sl.Len, oldA, ixT(a.Sl.Off, j), srcB, ixT(b.Sl.Off, app("-", j, a.Sl.Len)), fr, j))
 			fresh = fr
 		}
 		s.heapSet(key, srt, ite(fits, sto(h, a.Sl.Base, inPlace), sto(h, nb, fresh)))
@@ -180,6 +204,7 @@ func (s *State) copyOp(site ssa.Instruction, dst, src Val) Val {
 		goal := implies(app(">", n, "0"), c.frameGoal(s, "elems", "elem|"+typeKey(et), dst.Sl.Base))
 		s.oblige("frame", site, c.ordinal(site, "frame"), goal, "copy writes outside the assigns clause", false)
 	}
+	s.cellsStoreCheck(site, dst.Sl.Base, et)
 	s.copyElems(et, nil, dst, src, n)
 	return Val{T: intT, S: n}
 }
@@ -385,6 +410,10 @@ func (s *State) libStringToRunes(x Val, to types.Type) Val {
 	s.assume(implies(app("clean", x.S), eq(n, app("+", app("vlen", x.S), app("nl", x.S)))))
 	s.assume(implies(eq(x.S, "emp"), eq(n, "0")))
 	s.assume(implies(app(">=", app("blen", x.S), "1"), app(">=", n, "1")))
+	if s.c.cellsMode {
+		s.declCells()
+		s.assume(implies(app("oneRune", x.S), and(eq(n, "1"), eq(sel(inner, "0"), app("runeOf", x.S)))))
+	}
 	return r
 }
 
